@@ -95,6 +95,14 @@ def valid_input(me, T, task, shape, rng):
         if what in ("ref_reward", "both"):
             kw["ref_reward"] = np.array([rng.choice([0.0, 0.5, 1.0]) for _ in rf])
         return (rt, rf, et, ef), kw
+    if task == "multipitch" and shape in ("no-frames-at-all", "ref-without-frames", "est-without-frames"):
+        rt, rf, et, ef = gen.gen_multipitch(rng, "random")
+        E = np.array([])
+        if shape != "est-without-frames":
+            rt, rf = E, []
+        if shape != "ref-without-frames":
+            et, ef = E.copy(), []
+        return (rt, rf, et, ef), {}
     if task == "alignment":
         ref, est = gen.gen_alignment(rng, "random")
         if shape == "duration-equals-last-timestamp":                  # the last timestamp may coincide with the end of the audio
@@ -267,6 +275,8 @@ def faulty_call(me, T, task, fault, fn_name, rng):
             evv = evv[:-1] if len(evv) > 1 else np.append(evv, 64.0)
         elif fault == "negative-velocity":
             evv = evv.copy(); evv[0] = -1.0
+        elif fault == "negative-ref-velocity":
+            rv = rv.copy(); rv[-1] = -0.5
         if vel:
             return outcome(fn, ri, rp, rv, ei, ep, evv)
         if short in ("onset_precision_recall_f1", "offset_precision_recall_f1"):
@@ -308,6 +318,10 @@ def faulty_call(me, T, task, fault, fn_name, rng):
                 est = est + [[]]
         elif fault == "bad-onset-midi-tuple":
             est = copy.deepcopy(est); est[0][0][0] = (1.0, 60.0, 3.0)
+        elif fault == "unknown-similarity-metric":
+            if not ref:
+                ref = copy.deepcopy(est)
+            return outcome(fn, ref, est, similarity_metric="normalised_matching_score")
         return outcome(fn, ref, est)
     if task == "alignment":
         ref, est = t.gen(rng, "random")
@@ -326,6 +340,14 @@ def faulty_call(me, T, task, fault, fn_name, rng):
             est = est[::-1].copy()
         elif fault == "negative-time":
             est = est.copy(); est[0] = -0.5
+        elif fault == "ref-negative-time":
+            ref = ref.copy(); ref[0] = -0.25
+        elif fault == "ref-not-ndarray":
+            ref = ref.tolist()
+        elif fault == "est-not-1d":
+            est = est.reshape(-1, 1)
+        elif fault == "ref-all-identical-without-duration":
+            ref = np.full(len(ref), 1.5)
         elif fault == "duration-nonpositive":
             kw = {"duration": rng.choice([0.0, -3.0])}
         elif fault == "duration-below-timestamp":
